@@ -527,6 +527,9 @@ func (t *Trie) getFromStore(h util.Uint256) (Node, error) {
 	if r.Err != nil {
 		return nil, r.Err
 	}
+	if typ := n.Node.Type(); typ == HashT || typ == EmptyT {
+		return nil, fmt.Errorf("invalid stored MPT node type: %x", typ)
+	}
 
 	if t.mode.RC() {
 		data = data[:len(data)-5]
